@@ -96,7 +96,7 @@ def run(ctx):
         exits = {n.id for n in g.exits()}
         # ------------------------------------------------------------ R1 child-main passes _cleanup on all exits
         ev = {n.id for n in lc.cleanup_nodes}
-        post = {n.id for n in g.nodes if n.stmt is not None and n.part == 'post' and any(last_attr(c) == '_cleanup' and receiver(c) == 'self' for c in calls_in(n.stmt))}
+        post = {n.id for n in g.nodes if n.stmt is not None and n.part == 'post' and any(last_attr(c) == '_cleanup' and receiver(c) == 'self' for c in n.calls())}
         ctx.check('R1', f'{cls.name}: {lc.main.short} calls _cleanup()', bool(ev), lc.main.short, 'no-cleanup-call',
                   f'{lc.main.short} never calls _cleanup(): no end-of-stream marker is ever produced', where=loc(lc.main, lc.main.node))
         if ev:
@@ -105,7 +105,7 @@ def run(ctx):
             def fault(e):
                 if e.kind == 'async':
                     return e.src.id in capable
-                return e.kind == 'exc' and e.cause == 'e3'
+                return e.kind == 'exc' and e.cause in ('e3', 'e3p')
             p = g.find_path_budget(lc.primary_sync, lambda n: n.id in exits, avoid=ev, budget=1, is_fault=fault)
             ctx.check('R1', f'{cls.name}: every exit of {lc.main.short} after start-up (inputs + one fault) goes through _cleanup()', p is None,
                       lc.main.short, 'exit-without-cleanup',
@@ -149,7 +149,7 @@ def run(ctx):
                 ctx.check('R1', f'{cleanup.short}: marker is written to the result channel', chan == want, cleanup.short, f'marker-channel:{chan}',
                           f'the end marker is written to `{chan}`, not to the result channel `{want}`', where=loc(cleanup, c))
                 # reached on every flow path unless the cleaned-up guard returns first
-                mid = {n.id for n in gc.nodes if n.stmt is not None and n.part == 'post' and any(x is c for x in calls_in(n.stmt))}
+                mid = {n.id for n in gc.nodes if n.stmt is not None and n.part == 'post' and any(x is c for x in n.calls())}
                 flagged = [n for n in gc.nodes if n.kind == 'test' and isinstance(n.stmt, ast.If) and is_self_attr(n.stmt.test)]
                 guard_attr = flagged[0].stmt.test.attr if flagged else None
 
@@ -257,7 +257,7 @@ def check_frontend(ctx):
     for n in g.nodes:
         if n.stmt is None:
             continue
-        for c in calls_in(n.stmt) if not isinstance(n.stmt, (ast.If, ast.While, ast.For, ast.Try, ast.With)) else []:
+        for c in n.calls() if not isinstance(n.stmt, (ast.If, ast.While, ast.For, ast.Try, ast.With)) else []:
             if id(c) in kinds and n.part == 'post':
                 node_kind[n.id] = kinds[id(c)]
             if last_attr(c) == 'close' and receiver(c) == 'self._results_pipe.child_end' and n.part == 'post':
@@ -382,7 +382,7 @@ def check_reader(ctx):
     block_tests = [n for n in g.nodes if n.kind == 'test' and isinstance(n.stmt, ast.If) and 'block' in norm(n.stmt.test)]
     ok = bool(polls) and bool(block_tests)
     if ok:
-        recv_nodes = [n for n in g.nodes if n.stmt is not None and n.part == 'eval' and any(last_attr(c) == 'recv' for c in calls_in(n.stmt))]
+        recv_nodes = [n for n in g.nodes if n.stmt is not None and n.part == 'eval' and any(last_attr(c) == 'recv' for c in n.calls())]
         poll_ids = {n.id for n in polls}
         # from the non-blocking branch, every flow path to recv passes the poll test
         bt = [n for n in block_tests if n.part in (None, 'post')] or block_tests
